@@ -31,7 +31,7 @@ impl Prop for C12 {
         let mut p = params(tier);
         p.regime_pct = 90;
         p.cogen_heavy = true;
-        p.long_w = 40;
+        p.long_w = tier.pick(40, 8);
         bf_case(p, 30)
     }
     fn describe(c: &BFCase) -> Value {
